@@ -60,6 +60,13 @@ def classify_result(body, call, depth=0):
         fl.kinds.add('returned')
         return fl
     _follow(body, call.dest[0], fl, set(), depth)
+    # drop elaboration re-tests the discriminant at scope end: keep only the tests that are not dominated by
+    # another test of the same result
+    def prune(edges):
+        blocks = sorted({sb for (sb, tb) in edges})
+        keep = [x for x in blocks if not any(y != x and body.dominates(y, x) for y in blocks)]
+        return [(sb, tb) for (sb, tb) in edges if sb in keep]
+    fl.err_edges = prune(fl.err_edges); fl.ok_edges = prune(fl.ok_edges)
     if not fl.kinds:
         fl.kinds.add('ignored')
     return fl
